@@ -772,25 +772,29 @@ class FilterCollector(WrappingCollector):
         else:
             return ilen(self.all_ids())
 
-    def collect_matches(self):
+    def computes_count(self):
+        return self.child.computes_count()
+
+    def matches(self):
+        # (The filtering is done on the stream of matches, so that collectors
+        # wrapped around this one - grouping, collapsing - see the documents
+        # that were let through, and only those)
         child = self.child
         _allow = self._allow
         _restrict = self._restrict
 
-        if _allow is not None or _restrict is not None:
-            filtered_count = self.filtered_count
-            for sub_docnum in child.matches():
-                global_docnum = self.offset + sub_docnum
-                if ((_allow is not None and global_docnum not in _allow)
-                    or (_restrict is not None and global_docnum in _restrict)):
-                    filtered_count += 1
-                    continue
-                child.collect(sub_docnum)
-            self.filtered_count = filtered_count
-        else:
-            # If there was no allow or restrict set, don't do anything special,
-            # just forward the call to the child collector
-            child.collect_matches()
+        for sub_docnum in child.matches():
+            global_docnum = self.offset + sub_docnum
+            if ((_allow is not None and global_docnum not in _allow)
+                or (_restrict is not None and global_docnum in _restrict)):
+                self.filtered_count += 1
+                continue
+            yield sub_docnum
+
+    def collect_matches(self):
+        child = self.child
+        for sub_docnum in self.matches():
+            child.collect(sub_docnum)
 
     def results(self):
         r = self.child.results()
@@ -993,6 +997,9 @@ class CollapseCollector(WrappingCollector):
                 else:
                     counters[ckey] += 1
             yield global_docnum
+
+    def computes_count(self):
+        return self.child.computes_count()
 
     def count(self):
         if self.child.computes_count():
